@@ -17,6 +17,8 @@ CONSTANTS
   Fiemap = TRUE
   CapFull = FALSE
   ReopenMax = 0
+  PunchMax = 0
+  PunchGuard = FALSE
   Bug = "nomrl"
 SYMMETRY Sym
 INVARIANTS ReadsEqualSource FailedSourceNeverWrongBytes NeverBeyondSize MediaOnlyCorrectOrHole RefillDedup RangeLockDisjoint RefillingCount LocksAtRest
